@@ -52,8 +52,15 @@ def history(seed, k, n_steps):
             reacted = 0
         elif u < 0.34:
             do('set_Hf', dict(i=rng.randrange(len(dr.IDS)) + 1, v=rng.choice([-100, 0, -300, 40, -250])))
-        elif u < 0.47:
-            do('dH', dict(j=rng.randrange(len(st['items'])) + 1))
+        elif u < 0.38:
+            j = rng.randrange(len(st['items'])) + 1
+            held = rng.random() < 0.7
+            if rng.random() < 0.7:
+                do('dH', dict(j=j, held=held))           # the member's heat of reaction is looked at, its conversion changed, looked at again
+            do('set_X', dict(j=j, X=dr.q(rng.choice([dr.F(1, 2), dr.F(1), dr.F(0), dr.F(1, 4), dr.F(3, 4)])), via=rng.choice(['item', 'set', 'held'])))
+            do('dH', dict(j=j, held=held))
+        elif u < 0.5:
+            do('dH', dict(j=rng.randrange(len(st['items'])) + 1, held=rng.random() < 0.6))
         elif reacted >= (2 if small(w) else 1):
             do('set_feed', dr.random_feed(rng, st, ref_T=rng.random() < 0.4))
             reacted = 0
@@ -94,7 +101,7 @@ def judge_traces(ctx, traces):
                         nxt.append(dict(id=t['id'] + 'c', mode='seq', init=s['post'], steps=t['steps'][x['l']:]))
                     continue
                 ctx.violation(key_of(s, x['clause'], pre), '%s %r: %s pre=%r post=%r obs=%r' % (s['op'], s['a'], x['clause'], pre, s['post'], s['obs']),
-                              dict(kind='seq', init=pre, steps=[dict(op=s['op'], a=s['a'])], clause=x['clause']))
+                              dict(kind='seq', init=t['init'], steps=[dict(op=z['op'], a=z['a']) for z in t['steps'][:x['l']]], clause=x['clause']))      # the whole history (objects keep state)
                 if t['steps'][x['l']:]:
                     nxt.append(dict(id=t['id'] + 'c', mode='seq', init=s['post'], steps=t['steps'][x['l']:]))
         todo = nxt
